@@ -47,6 +47,9 @@ lexgen_util = { path = "%s/crates/lexgen_util" }
     return root, bins
 
 
+EXPECT_TABLE = ["c02_table_shape", "c02_chars_vs_many_ranges", "c04_table_in_ctx"]
+
+
 def main():
     t0 = time.time()
     violations, lines, undecided = 0, [], []
@@ -111,6 +114,18 @@ def main():
             det.append({"definition": name, "status": "differs"})
         else:
             det.append({"definition": name, "status": "identical", "bytes": len(a)})
+    # coverage guard for the layer C corpus: definitions written to exercise the search-table path must still be table-driven
+    # (a definition that silently stopped producing a table would leave C09/C13's table obligations vacuous); note only, never an alarm
+    shape = []
+    import re as _re
+    for name in EXPECT_TABLE:
+        if name not in bins:
+            continue
+        t = expand_once(name)
+        n_tab = len(_re.findall(r"static \w*RANGE_TABLE_\d+", t)) if t else None
+        shape.append({"definition": name, "range_tables": n_tab})
+        if n_tab == 0:
+            C.say("NOTE corpus definition %s is meant to be table-driven but its expansion contains no range table on this tree" % name)
     samples = []
     known = C.load_known_findings()
     known_hit = []
@@ -140,7 +155,7 @@ def main():
     cov = {"evaluations": len(samples), "distinct_nontrivial": ok,
            "rule": "every corpus definition (layer C corpus + corpus/c12_defs.py) is expanded by the real macro of the snapshot and compiled by rustc, each as its own binary under a %d s watchdog; "
                    "non-trivial = expands and compiles" % WATCHDOG,
-           "samples": samples, "slow_definitions_over_30s": slow, "known_findings_reproduced": known_hit, "determinism_by_double_expansion": det,
+           "samples": samples, "slow_definitions_over_30s": slow, "known_findings_reproduced": known_hit, "determinism_by_double_expansion": det, "table_driven_definitions": shape,
            "proved_obligations": proved, "obligations": len(proved), "discharged": sum(1 for p in proved if p["status"] == "ok"),
            "checker_cmd": "cargo rustc --offline --bin <definition> (crate generated in scratch against the snapshot)" + ("; " + "; ".join(r.get("cmd", "") for r in vres) if vres else ""),
            "trusted_base": ["rustc/cargo of the repository toolchain", "the corpus samples the `programs` quantifier"] + (vsum["trusted_fragments"] if vsum else []),
